@@ -36,6 +36,7 @@ type Options struct {
 	MaxDecDigits  int
 	BigBitopWidth int
 	IntLimbs      bool
+	AllocSlack    int
 }
 
 func (o *Options) skipInit(path string) bool { return o.SkipInit[path] }
@@ -80,6 +81,9 @@ type PathState struct {
 	unknowns    int
 	branchesSym int
 	notes       []string
+
+	allocLimit   int
+	allocLimitOn bool
 }
 
 type Violation struct {
